@@ -103,6 +103,7 @@ WFAMS = ["small_int", "small_int", "unit", "dyadic", "mixed", "all_zero", "mostl
 BAD = [float("nan"), "3.0", None, L.HUGE_INT, -L.HUGE_INT]
 BAD_W = BAD + [-1.0, -1, -1e-300, float("-inf")]
 SUBS = ["none", "none", "all", "one"]
+QUANTITIES = [("Duration", "s"), ("Duration", "min"), ("Length", "km"), ("SI", "m"), ("Speed", "km/h")]
 
 
 def gen_weighted_case(rng: random.Random, idx: int, long_n: int = 0):
@@ -113,6 +114,7 @@ def gen_weighted_case(rng: random.Random, idx: int, long_n: int = 0):
     vals, wts = gen_values(rng, vf, n), gen_weights(rng, wf, n)
     p_init = 0.0 if long_n else rng.choice([0.0, 0.0, 0.05, 0.15])
     p_bad = 0.002 if long_n else rng.choice([0.0, 0.05, 0.2])
+    p_qty = 0.0 if long_n else rng.choice([0.0, 0.0, 0.0, 0.1, 0.4])
     ops = []
     for w, v in zip(wts, vals):
         if rng.random() < p_init:
@@ -127,7 +129,14 @@ def gen_weighted_case(rng: random.Random, idx: int, long_n: int = 0):
             ops.append({"op": "reg" if cls == "WeightedTally" or rng.random() < 0.5 else "notify",
                         "w": L.enc(bw), "v": L.enc(bv)})
         how = "reg" if cls == "WeightedTally" or rng.random() < 0.7 else "notify"
-        ops.append({"op": how, "w": L.enc(w), "v": L.enc(v)})
+        ev = L.enc(v)
+        if rng.random() < p_qty and not isinstance(v, bool):      # a Quantity value counts with its si-value
+            qc, qu = QUANTITIES[rng.randrange(len(QUANTITIES))]
+            ev = L.qenc(qc, float(v), qu)
+        ew = L.enc(w)
+        if how == "notify" and rng.random() < p_qty and not isinstance(w, bool):   # notify takes float(weight)
+            ew = L.qenc("Duration", float(w), "s")
+        ops.append({"op": how, "w": ew, "v": ev})
     if not long_n and rng.random() < 0.25:
         ops.append({"op": "init"})
         if rng.random() < 0.5:
@@ -141,6 +150,24 @@ def gen_weighted_case(rng: random.Random, idx: int, long_n: int = 0):
 
 def gen_times(rng: random.Random, fam: str, n: int):
     """non-decreasing timestamps with repeats"""
+    if fam == "bigint":          # int clock far beyond 2^53 (nanoseconds since the epoch, ...): float() is not injective there
+        t = rng.choice([1_700_000_000_000_000_000 + rng.randrange(10 ** 9), 2 ** 53 + rng.randrange(1000), 2 ** 60 + rng.randrange(50),
+                        -(2 ** 55) - rng.randrange(1000)])
+        step = rng.choice([[1, 2, 3], [100], [100, 100, 250], [7, 1000, 10 ** 6]])
+        out = []
+        for _ in range(n):
+            out.append(t)
+            if rng.random() >= 0.25:
+                t = t + rng.choice(step)
+        return out
+    if fam == "mixed53":         # ints and floats interleaved around 2^53, compared exactly by Python
+        t = 2 ** 53 - rng.randrange(6)
+        out = []
+        for _ in range(n):
+            out.append(float(t) if float(t) == t and rng.random() < 0.5 else t)
+            if rng.random() >= 0.25:
+                t = t + rng.choice([1, 1, 2, 3])
+        return out
     t = {"small_int": rng.choice([0, 0, 1, -3]), "dyadic": rng.randint(-8, 8) / 4.0, "unit": rng.random(),
          "offset": rng.choice([1e6, 1e9, float(2 ** 40)]), "dwarfing": 0.0, "mixed": 0.0}[fam]
     out = []
@@ -163,7 +190,7 @@ def gen_times(rng: random.Random, fam: str, n: int):
     return out
 
 
-TFAMS = ["small_int", "small_int", "dyadic", "unit", "offset", "mixed", "dwarfing"]
+TFAMS = ["small_int", "small_int", "dyadic", "unit", "offset", "mixed", "dwarfing", "bigint", "bigint", "mixed53"]
 
 
 def gen_ts_case(rng: random.Random, idx: int, long_n: int = 0):
@@ -176,6 +203,18 @@ def gen_ts_case(rng: random.Random, idx: int, long_n: int = 0):
     p_bad = 0.002 if long_n else rng.choice([0.0, 0.05, 0.2])
     p_back = 0.0 if long_n else rng.choice([0.0, 0.05, 0.15])
     p_end = 0.0 if long_n else rng.choice([0.0, 0.03, 0.1])
+    p_qty = 0.0 if long_n else rng.choice([0.0, 0.0, 0.0, 0.1, 0.4])
+    # int timestamps beyond 2^53 go through register only: notify() converts with float(event.timestamp) by design
+    exact_ints = tf in ("bigint", "mixed53")
+
+    def pick(options):
+        return rng.choice([o for o in options if isinstance(o, int)] if exact_ints else options)
+
+    def val(v):                  # a Quantity value counts with its si-value
+        if rng.random() < p_qty and not isinstance(v, bool):
+            qc, qu = QUANTITIES[rng.randrange(len(QUANTITIES))]
+            return L.qenc(qc, float(v), qu)
+        return L.enc(v)
     ops = []
     last = None
     for t, v in zip(times, vals):
@@ -183,23 +222,26 @@ def gen_ts_case(rng: random.Random, idx: int, long_n: int = 0):
             ops.append({"op": "init"})
         if rng.random() < p_bad:
             bt, bv = (BAD[rng.randrange(len(BAD))], v) if rng.random() < 0.5 else (t, BAD[rng.randrange(len(BAD))])
-            if isinstance(bt, str) or bt is None or cls == "TimestampWeightedTally" or rng.random() < 0.5:
+            if isinstance(bt, str) or bt is None or cls == "TimestampWeightedTally" or exact_ints or rng.random() < 0.5:
                 ops.append({"op": "reg", "t": L.enc(bt), "v": L.enc(bv)})
             else:
                 ops.append({"op": "notify", "t": L.enc(bt), "v": L.enc(bv)})
         if last is not None and rng.random() < p_back:   # an earlier timestamp
-            ops.append({"op": "reg", "t": L.enc(last - rng.choice([1, 0.5, 1e-9 * abs(last) + 1e-12])), "v": L.enc(v)})
+            ops.append({"op": "reg", "t": L.enc(last - pick([1, 0.5, 1e-9 * abs(last) + 1e-12, 3])), "v": L.enc(v)})
         if rng.random() < p_end:
-            te = t if rng.random() < 0.5 else t + rng.choice([0, 1, 0.5])
+            te = t if rng.random() < 0.5 else t + pick([0, 1, 0.5])
             ops.append({"op": "end", "t": L.enc(te)})
             if rng.random() < 0.3:
                 ops.append({"op": "end", "t": L.enc(te + 1)})
-        how = "reg" if cls == "TimestampWeightedTally" or rng.random() < 0.7 else "notify"
-        ops.append({"op": how, "t": L.enc(t), "v": L.enc(v)})
+        how = "reg" if cls == "TimestampWeightedTally" or exact_ints or rng.random() < 0.7 else "notify"
+        if how == "notify" and rng.random() < p_qty and isinstance(t, float) and abs(t) < 1e15:
+            ops.append({"op": how, "t": L.qenc("Duration", t, "s"), "v": val(v)})      # a Duration clock
+        else:
+            ops.append({"op": how, "t": L.enc(t), "v": val(v)})
         last = t
     if last is not None and (long_n or rng.random() < 0.8):
         r = rng.random()
-        te = last if r < 0.3 else (last + rng.choice([1, 2.5, 0.125]) if r < 0.95 else last - 1)
+        te = last if r < 0.3 else (last + pick([1, 2.5, 0.125, 100]) if r < 0.95 else last - 1)
         ops.append({"op": "end", "t": L.enc(te)})
         if not long_n and rng.random() < 0.5:              # observations after closing
             for v in gen_values(rng, "small_int", rng.randint(1, 3)):
@@ -207,7 +249,7 @@ def gen_ts_case(rng: random.Random, idx: int, long_n: int = 0):
                 ops.append({"op": "reg", "t": L.enc(te), "v": L.enc(v)})
             if rng.random() < 0.4:
                 ops.append({"op": "init"})
-                t0 = rng.choice([0, 5.0, -1])
+                t0 = (te + 10) if exact_ints else rng.choice([0, 5.0, -1])
                 for k, v in enumerate(gen_values(rng, "small_int", rng.randint(1, 3))):
                     ops.append({"op": "reg", "t": L.enc(t0 + k), "v": L.enc(v)})
                 ops.append({"op": "end", "t": L.enc(t0 + 7)})
@@ -289,15 +331,15 @@ def run_case(case):
             if op["op"] == "init":
                 t.initialize()
             elif op["op"] == "end":
-                t.end_observations(L.dec(op["t"]))
+                t.end_observations(L.dec_impl(op["t"]))
             elif ts:
-                tt, v = L.dec(op["t"]), L.dec(op["v"])
+                tt, v = L.dec_impl(op["t"]), L.dec_impl(op["v"])
                 if op["op"] == "notify":
                     t.notify(TimedEvent(tt, StatEvents.TIMESTAMP_DATA_EVENT, v))
                 else:
                     t.register(tt, v)
             else:
-                w, v = L.dec(op["w"]), L.dec(op["v"])
+                w, v = L.dec_impl(op["w"]), L.dec_impl(op["v"])
                 if op["op"] == "notify":
                     t.notify(Event(StatEvents.WEIGHT_DATA_EVENT, (w, v)))
                 else:
@@ -475,7 +517,7 @@ def oracle_weighted(case, steps):
     for i, (op, rec) in enumerate(zip(case["ops"], steps)):
         ek = expected_kind_weighted(op)
         sub = {"none": "", "all": " with subscribers attached", "one": " with one subscriber attached"}[case["subs"]]
-        call = "initialize()" if op["op"] == "init" else f"{op['op']}({L.dec(op['w'])!r}, {L.dec(op['v'])!r})"
+        call = "initialize()" if op["op"] == "init" else f"{op['op']}({L.show(op['w'])}, {L.show(op['v'])})"
         if rec["kind"] != ek:
             if ek == "ok":
                 return (f"{who}-register-raises-{rec['kind']}",
@@ -550,11 +592,12 @@ def oracle_ts(case, steps):
     seen while open; closed tallies ignore observations; earlier timestamps are refused."""
     who = "timestamp"
     pts, last_ts, closed, polluted, nontrivial = [], None, False, False, False
+    n_adv = 0          # number of intervals of positive length seen while open (exact comparison of the timestamps)
     for i, (op, rec) in enumerate(zip(case["ops"], steps)):
         ek = expected_kind_ts(op, last_ts)
         sub = {"none": "", "all": " with subscribers attached", "one": " with one subscriber attached"}[case["subs"]]
         call = "initialize()" if op["op"] == "init" else (
-            f"end_observations({L.dec(op['t'])!r})" if op["op"] == "end" else f"{op['op']}({L.dec(op['t'])!r}, {L.dec(op['v'])!r})")
+            f"end_observations({L.show(op['t'])})" if op["op"] == "end" else f"{op['op']}({L.show(op['t'])}, {L.show(op['v'])})")
         if rec["kind"] != ek:
             if ek == "ok":
                 return (f"{who}-register-raises-{rec['kind']}",
@@ -565,7 +608,7 @@ def oracle_ts(case, steps):
             return (f"{who}-invalid-observation-not-rejected", f"{case['cls']}.{call} ended with {rec['kind']}, expected {ek}", i), False
         pre, post = rec["pre"], rec["post"]
         if op["op"] == "init":
-            pts, last_ts, closed, polluted = [], None, False, False
+            pts, last_ts, closed, polluted, n_adv = [], None, False, False, 0
             if post["active"] != ("v", True):
                 return (f"{who}-initialize-does-not-reopen", f"isactive() = {post['active']!r} after initialize", i), False
         elif ek != "ok":
@@ -582,7 +625,10 @@ def oracle_ts(case, steps):
                             f"{call} after end_observations changed a statistic: {snap_key(pre, False)} -> {snap_key(post, False)}", i), False
             else:
                 v = pts[-1][1] if (op["op"] == "end" and pts) else (L.dec(op["v"]) if op["op"] != "end" else 0.0)
-                polluted = polluted or _polluting(t) or _polluting(v)
+                # a timestamp may be any int (Python subtracts and compares ints exactly); only +-inf is left aside
+                polluted = polluted or (isinstance(t, float) and math.isinf(t)) or _polluting(v)
+                if pts and t > pts[-1][0]:
+                    n_adv += 1
                 pts.append((t, v))
                 last_ts = t
                 if op["op"] == "end":
@@ -598,13 +644,26 @@ def oracle_ts(case, steps):
             return (bad[0], bad[1] + f" (after {call})", i), False
         if rec["snap"] is not None and not polluted:
             sn = rec["snap"]
+            if sn["n"] != n_adv or isinstance(sn["n"], bool):
+                return (f"{who}-n-wrong", f"n() = {sn['n']!r}, but {n_adv} intervals of positive length lie between the "
+                        f"{len(pts)} timestamps accepted since the last initialize", i), False
             segs = [(Fraction(t1) - Fraction(t0), v0) for (t0, v0), (t1, _) in zip(pts, pts[1:])]
             exp, regular = weighted_expectations([(w, x) for w, x in segs if w > 0])
+            # ints beyond 2^53 next to floats: Python itself rounds the int when it meets the float in a subtraction,
+            # so a duration can be off by an ulp of the timestamps; then only n, the span (to that accuracy), NaN
+            # structure and never-raises are checked.  Ints among themselves (and floats among themselves) subtract
+            # exactly / correctly rounded: the span must then be right relative to ITS OWN size.
+            lossy = any(isinstance(t, int) and abs(t) > 2 ** 53 for t, _ in pts) and any(isinstance(t, float) for t, _ in pts)
+            if lossy:
+                exp = {k: (e if e[0] == "nan" else ("any",)) for k, e in exp.items()}
+                regular = False
             if not pts:
                 exp["sw"] = ("val", 0.0, 0.0)
             else:                    # total weight = the span from the first to the latest time
                 span = Fraction(pts[-1][0]) - Fraction(pts[0][0])
-                tol = 1e-12 * max(abs(float(pts[-1][0])), abs(float(pts[0][0])), float(span)) * max(1.0, len(pts) / 100.0) + 1e-300
+                tol = 1e-12 * float(span) * max(1.0, len(pts) / 100.0) + 1e-300
+                if lossy:
+                    tol += 2.0 * len(pts) * math.ulp(max(abs(float(pts[-1][0])), abs(float(pts[0][0]))))
                 exp["sw"] = ("val", float(span) - tol, float(span) + tol)
                 if exp.get("wmean", ("any",))[0] == "val" and regular and span > 0:
                     # weighted mean * span = integral of the step function
@@ -651,16 +710,45 @@ def notify_args(a, b):
     return L.carg(a), L.carg(b)
 
 
+ORACLE_ONLY = "oracle-only"
+
+
+def ts_shift(case):
+    """The model's time universe is binary64.  A case whose timestamps are ints beyond 2^53 is executed on the model
+    with every int timestamp shifted by the first such int (the code subtracts and compares int timestamps exactly, so
+    its statistics depend on differences only -- which is precisely what the bit-exact comparison then re-checks).
+    Returns the shift (0: none needed), or None when ints beyond 2^53 meet float timestamps in one case: Python then
+    rounds the int inside `int - float`, which the model's universe cannot express; such cases are judged by the
+    oracle only."""
+    tvals = [L.dec(op["t"]) for op in case["ops"] if "t" in op]
+    big = [t for t in tvals if isinstance(t, int) and not isinstance(t, bool) and 2 ** 53 < abs(t) < 10 ** 309]
+    if not big:
+        return 0
+    nums = [t for t in tvals if L.is_number(t) and not (isinstance(t, float) and t != t)
+            and not (isinstance(t, int) and abs(t) >= 10 ** 309)]
+    if any(isinstance(t, (float, bool)) for t in nums) or any(abs(t - big[0]) > 2 ** 53 for t in nums):
+        return None
+    return big[0]
+
+
 def c_case(case, steps):
     ts = case["kind"] == "timestamp"
+    shift = ts_shift(case) if ts else 0
+    if shift is None:
+        return ORACLE_ONLY
+
+    def tm(t):
+        return t - shift if shift and isinstance(t, int) and abs(t) < 10 ** 309 else t
     items = []
     for op, rec in zip(case["ops"], steps):
         if op["op"] == "init":
             cop = "(@TsInit NumF)" if ts else "(@WInit NumF)"
         elif op["op"] == "end":
-            cop = f"(@TsEnd NumF {L.carg(L.dec(op['t']))})"
+            cop = f"(@TsEnd NumF {L.carg(tm(L.dec(op['t'])))})"
         else:
             a, b = L.dec(op["t"] if ts else op["w"]), L.dec(op["v"])
+            if ts:
+                a = tm(a)
             if op["op"] == "notify":
                 if not L.is_number(a) or not L.is_number(b):
                     ca, cb = "ONotNumber", "ONotNumber"
@@ -729,11 +817,11 @@ def describe_ops(case):
         if op["op"] == "init":
             out.append("initialize()")
         elif op["op"] == "end":
-            out.append(f"end_observations({L.dec(op['t'])!r})")
+            out.append(f"end_observations({L.show(op['t'])})")
         elif case["kind"] == "weighted":
-            out.append(f"{op['op']}(weight={L.dec(op['w'])!r}, value={L.dec(op['v'])!r})")
+            out.append(f"{op['op']}(weight={L.show(op['w'])}, value={L.show(op['v'])})")
         else:
-            out.append(f"{op['op']}(timestamp={L.dec(op['t'])!r}, value={L.dec(op['v'])!r})")
+            out.append(f"{op['op']}(timestamp={L.show(op['t'])}, value={L.show(op['v'])})")
     return out
 
 
@@ -751,9 +839,11 @@ def main(tier: str) -> int:
         "in the correspondence check it is the binary64 square root",
         "Coq primitive floats and CPython floats round + - * / sqrt identically (re-validated by every bit-exact correspondence run)",
         "exact-arithmetic theorems: the rounding error of the weighted recurrences is measured by the Fraction oracle, not bounded by a theorem",
-        "int arguments beyond 2^53 are not generated (except ints beyond the float range, as rejected input)",
+        "the model's value / time universe is binary64: int weights and values beyond 2^53 are not generated; int timestamps beyond 2^53 "
+        "(register only -- notify converts with float() by design) are run on the model shifted by the case's first such timestamp, "
+        "and cases mixing them with float timestamps are judged by the Fraction oracle only (counted in the evidence)",
     ])
-    run.assumptions = ["math.sqrt respects equality and is positive on positive arguments (contract on the uninterpreted sqrt of the exact-arithmetic theorems)", "Coq primitive floats and CPython floats agree bit for bit on + - * / sqrt and comparisons", "observations are floats or ints of magnitude <= 2^53 (or rejected inputs)", "translated model: self.m() / super().m() resolve statically within the four base classes; float / and math.sqrt raise exactly on a zero divisor / negative argument; int -> float conversion of counters does not overflow (translator/py2gallina_stats.py)"]
+    run.assumptions = ["math.sqrt respects equality and is positive on positive arguments (contract on the uninterpreted sqrt of the exact-arithmetic theorems)", "Coq primitive floats and CPython floats agree bit for bit on + - * / sqrt and comparisons", "weights and values are floats, ints of magnitude <= 2^53 or Quantities (counted with their si-value), or rejected inputs; timestamps may be any int", "translated model: self.m() / super().m() resolve statically within the four base classes; float / and math.sqrt raise exactly on a zero divisor / negative argument; int -> float conversion of counters does not overflow (translator/py2gallina_stats.py)"]
     C.use_repo_sources()
     rng = random.Random(run.seed * 15485863 + 10)
     quick = tier == "quick"
@@ -828,7 +918,8 @@ def main(tier: str) -> int:
         "EventBasedTimestampWeightedTally (no, one, all subscribers; register and notify): values from the families small ints, dyadic, "
         "uniform, mixed magnitude, large offset + small spread, all equal, two-level, tiny; weights small ints with many zeros, uniform, "
         "dyadic, mixed magnitude, all zero, mostly zero, dwarfing (one weight 1e17..1e30 times the others), ones; timestamps non-decreasing "
-        "with 25% repeats (ints, dyadic, uniform steps, large offset, mixed, dwarfing intervals), earlier timestamps, end_observations at / "
+        "with 25% repeats (ints, dyadic, uniform steps, large offset, mixed, dwarfing intervals, int clocks of magnitude 2^53..1.7e18 with gaps "
+        "1..1e6, ints and floats interleaved around 2^53), Quantity values / Duration clocks through notify, earlier timestamps, end_observations at / "
         f"after / before the last time, observations after closing, re-initialisation; lengths 0..21 plus long runs of {sorted(set(longs))}; "
         "rejected inputs (NaN, str, None, huge int, negative weight). Getters compared after every call or a sample of calls. non-trivial = "
         "distinct case in which at some compared point >= 3 positively weighted observations (positive-length intervals, and the tally closed, "
@@ -885,6 +976,7 @@ def main(tier: str) -> int:
     d = C.scratch_dir(PID)
     files, owners, kinds = [], [], []
     unrep = []
+    oracle_only = []     # ints beyond 2^53 next to float timestamps: outside the model's time universe (see ts_shift)
 
     def shards(idx, size_budget):
         cur, cost = [], 0
@@ -907,7 +999,9 @@ def main(tier: str) -> int:
                     lit = c_case(cases[i], results[i])
                 except ValueError:
                     lit = None
-                if lit is None:
+                if lit == ORACLE_ONLY:
+                    oracle_only.append(i)
+                elif lit is None:
                     unrep.append(i)
                 else:
                     lits.append(lit)
@@ -927,8 +1021,11 @@ def main(tier: str) -> int:
                           {"file": str(files[fi])}, found_input=False)
             return run.finish()
         mism += [owners[fi][j] for j in lst]
-    run.cov["traces_validated_against_impl"] = len(cases) - len(mism)
+    run.cov["traces_validated_against_impl"] = len(cases) - len(mism) - len(oracle_only)
     run.cov["model_impl_mismatches"] = len(mism)
+    run.cov["cases_judged_by_the_oracle_only"] = len(oracle_only)
+    run.cov["cases_with_int_timestamps_beyond_2^53_run_on_the_model_shifted"] = sum(
+        1 for c in cases if c["kind"] == "timestamp" and ts_shift(c))
     if mism and not found:
         i = mism[0]
         case = cases[i]
